@@ -232,7 +232,9 @@ class EqualMassPhaseSpaceFactor(sp.Expr):
 
     def evaluate(self) -> sp.Expr:
         s, m1, m2 = self.args
-        rho_hat = PhaseSpaceFactorAbs(s, m1, m2)
+        # absolute value, because PhaseSpaceFactorAbs divides by sqrt(s), which makes it
+        # imaginary for s < 0, while the PDG formula is in terms of sqrt(|1 - 4m^2/s|)
+        rho_hat = sp.Abs(PhaseSpaceFactorAbs(s, m1, m2))
         s_threshold = (m1 + m2) ** 2  # type: ignore[operator]
         return _analytic_continuation(rho_hat, s, s_threshold)
 
